@@ -134,18 +134,18 @@ def hArange : Handler := handler fun args =>
     | some n => pure (.list [.int n, .list ((arangeBlocks a s 0 cs).map encABlock), encIntss (arangeValues a s cs)])
   | _ => none
 
-/-- `(linspace startNum range endpoint (chunks…))` ↦ blocks as numerators over `div` and, per block, the
-    numerators of the values over `div * ldiv` together with `ldiv` -/
+/-- `(linspace a b range num endpoint (chunks…))` ↦ `(((offset size)…) ((values…)…) (spec…))` (numerators over `div`) -/
 def hLinspace : Handler := handler fun args =>
   match args with
-  | [a, r, ep, cs] => do
+  | [a, b, r, num, ep, cs] => do
     let a ← a.toInt?
+    let b ← b.toInt?
     let r ← r.toInt?
+    let num ← num.toNat?
     let ep ← ep.toBool?
     let cs ← cs.toNats?
-    let blks := linspaceBlocks r ep a cs
-    pure (.list (blks.map (fun b => .list [encABlock b, .int (linspaceDiv b.len ep),
-      SExp.ofInts ((List.range b.len).map (npLinspaceNum ep b))])))
+    pure (.list [.list ((linspaceOffsets 0 cs).map (fun p => SExp.ofNats [p.1, p.2])),
+                 encIntss (linspaceValues a b r num ep cs), SExp.ofInts (linspaceSpec a b r num ep)])
   | _ => none
 
 def encEyeCell (c : Bool × Int) : SExp := .list [SExp.ofBool c.1, .int c.2]
